@@ -123,16 +123,16 @@ class VarMatcher(BaseMatcher):
 @dataclass(frozen=True, slots=True)
 class SequenceMatcher(BaseMatcher):
     matchers: tuple[BaseMatcher, ...]
-    tail_matcher: AnyMatcher | None = field(default=None, init=False)
+    tail_matcher: AnyMatcher | None = field(default=None)
 
     def __post_init__(self) -> None:
-        if len(self.matchers) == 0:
+        if len(self.matchers) == 0 and self.tail_matcher is None:
             raise RuntimeError(
                 "SequenceMatcher must have at least one matcher."
                 " Use ValueMatcher with empty tuple instead."
             )
 
-        if isinstance(self.matchers[-1], AnyMatcher):
+        if self.tail_matcher is None and isinstance(self.matchers[-1], AnyMatcher):
             object.__setattr__(self, "tail_matcher", self.matchers[-1])
             object.__setattr__(self, "matchers", self.matchers[:-1])
 
